@@ -46,6 +46,13 @@ func routeInstances(tier string) []explore.Params {
 		}
 		return []explore.Params{{"pat": strings.Join(pats, ",")}}
 	}
+	if tier == "fine" { // function-entry preemption points on; two ids dialled at once from one side with one shared option slice
+		for _, pp := range []string{"hA0,hA0", "pA0,pA0", "hA0,pA0", "hD0,hD0", "pD0,pD0"} {
+			out = append(out, explore.Params{"pat": pp, "opts": "shared", "fine": "1"})
+		}
+		out = append(out, explore.Params{"pat": "hA0,hA0", "fine": "1"}, explore.Params{"pat": "pA0,pD0", "fine": "1"})
+		return out
+	}
 	if tier == "ids" { // explicit ids: one number outstanding in both directions at once; the edges of uint32
 		for _, pp := range [][2]string{{"hA0,pA0", "7,7"}, {"hD0,pD0", "7,7"}, {"hA0,pD1000", "7,7"}, {"hA1000,pA0", "7,7"}, {"hD0,pA2000", "7,7"},
 			{"hA0,hA0", "0,4294967295"}, {"pD0,pA0", "0,2147483648"}, {"hA0,pA0", "0,0"}} {
@@ -127,6 +134,7 @@ func init() {
 			x.Put("close", func() { closeAll(); pr.gc.Close() })
 			d := newDone(x)
 			x.Put("d", d)
+			sharedOpts := append(make([]grpc.DialOption, 0, 8), grpc.WithUserAgent("verif"))
 			for i, pat := range strings.Split(p["pat"], ",") {
 				slot := uint32(10 + i) // names the pattern in observations and verdict keys
 				id := slot
@@ -167,7 +175,14 @@ func init() {
 						x.Pause(gap)
 					}
 					t0 := x.Now()
-					cc, err := db.Dial(id)
+					var cc *grpc.ClientConn
+					var err error
+					if p["opts"] == "shared" {
+						// the application keeps one option slice (with spare capacity) for all its brokered dials
+						cc, err = db.DialWithOptions(id, sharedOpts...)
+					} else {
+						cc, err = db.Dial(id)
+					}
 					x.Obs("dial%d err=%v", id, err != nil)
 					if err != nil {
 						x.Put(fmt.Sprintf("derr%d", slot), fmt.Sprintf("Dial: %v after %v", err, x.Now()-t0))
